@@ -6,8 +6,6 @@ use crate::{
 };
 use roxmltree::{Document, Node};
 
-const E57_NAMESPACE: &str = "http://www.astm.org/COMMIT/E57/2010-e57-v1.0";
-
 /// Descriptor with metadata for a single point cloud.
 ///
 /// This struct does not contain any actual point data,
@@ -72,11 +70,11 @@ impl PointCloud {
         let mut pointclouds = Vec::new();
         // Only a child of the root element is the list of point clouds, an element
         // with the same name further down in the tree is not
-        let root = Some(document.root_element()).filter(|n| n.has_tag_name("e57Root"));
-        let data3d = root.and_then(|r| r.children().find(|n| n.has_tag_name("data3D")));
+        let root = Some(document.root_element()).filter(|n| xml::is_tag(n, "e57Root"));
+        let data3d = root.and_then(|r| r.children().find(|n| xml::is_tag(n, "data3D")));
         if let Some(data3d_node) = data3d {
             for n in data3d_node.children() {
-                if n.has_tag_name("vectorChild") && n.attribute("type") == Some("Structure") {
+                if xml::is_tag(&n, "vectorChild") && n.attribute("type") == Some("Structure") {
                     let pointcloud = Self::from_node(&n)?;
                     pointclouds.push(pointcloud);
                 }
@@ -101,20 +99,20 @@ impl PointCloud {
         let acquisition_start = xml::opt_date_time(node, "acquisitionStart")?;
         let acquisition_end = xml::opt_date_time(node, "acquisitionEnd")?;
         let transform = xml::opt_transform(node, "pose")?;
-        let cartesian_bounds = node.children().find(|n| n.has_tag_name("cartesianBounds"));
-        let spherical_bounds = node.children().find(|n| n.has_tag_name("sphericalBounds"));
-        let index_bounds = node.children().find(|n| n.has_tag_name("indexBounds"));
-        let intensity_limits = node.children().find(|n| n.has_tag_name("intensityLimits"));
-        let color_limits = node.children().find(|n| n.has_tag_name("colorLimits"));
+        let cartesian_bounds = node.children().find(|n| xml::is_tag(n, "cartesianBounds"));
+        let spherical_bounds = node.children().find(|n| xml::is_tag(n, "sphericalBounds"));
+        let index_bounds = node.children().find(|n| xml::is_tag(n, "indexBounds"));
+        let intensity_limits = node.children().find(|n| xml::is_tag(n, "intensityLimits"));
+        let color_limits = node.children().find(|n| xml::is_tag(n, "colorLimits"));
 
         // Read optional vector of original GUIDs
         let original_guids = if let Some(original_guids_node) =
-            node.children().find(|n| n.has_tag_name("originalGuids"))
+            node.children().find(|n| xml::is_tag(n, "originalGuids"))
         {
             let mut guids = Vec::new();
             for n in original_guids_node.children() {
                 if !n.is_element()
-                    || !n.has_tag_name("vectorChild")
+                    || !xml::is_tag(&n, "vectorChild")
                     || n.attribute("type") != Some("String")
                 {
                     continue;
@@ -128,7 +126,7 @@ impl PointCloud {
 
         let points_tag = node
             .children()
-            .find(|n| n.has_tag_name("points") && n.attribute("type") == Some("CompressedVector"))
+            .find(|n| xml::is_tag(n, "points") && n.attribute("type") == Some("CompressedVector"))
             .invalid_err("Cannot find 'points' tag inside 'data3D' child")?;
         let file_offset = points_tag
             .attribute("fileOffset")
@@ -142,7 +140,7 @@ impl PointCloud {
             .invalid_err("Cannot parse 'recordCount' attribute value as u64")?;
         let prototype_tag = points_tag
             .children()
-            .find(|n| n.has_tag_name("prototype") && n.attribute("type") == Some("Structure"))
+            .find(|n| xml::is_tag(n, "prototype") && n.attribute("type") == Some("Structure"))
             .invalid_err("Cannot find 'prototype' child in 'points' tag")?;
 
         // Parse point prototype records
@@ -154,7 +152,7 @@ impl PointCloud {
             let uri = n.tag_name().namespace().unwrap_or_default();
             let ns = n.lookup_prefix(uri);
             let tag = n.tag_name().name();
-            let name = if uri.is_empty() || uri == E57_NAMESPACE {
+            let name = if uri.is_empty() || uri == xml::E57_NAMESPACE {
                 RecordName::from_namespace_and_tag_name(ns, tag)?
             } else {
                 // Elements of other namespaces are never standard attributes, whatever their name
